@@ -138,7 +138,8 @@ func (root *Root) getObjType(gqlType string) (obj *Object, input *Input, err err
 }
 
 func (root *Root) assureType(sample interface{}, obj *Object) error {
-	meta := reflect.TypeOf(sample)
+	// A value and a pointer to it are the same object type.
+	meta := baseType(reflect.TypeOf(sample))
 	verifYield("assureType")
 	obj.mu.Lock()
 	defer obj.mu.Unlock()
@@ -165,7 +166,7 @@ func (root *Root) getReflectType(meta reflect.Type) (obj Type) {
 		if o, _ := t.(*Object); o != nil {
 			// An object that has not been bound to a Go type yet is bound
 			// by its @go directive or its name, like a union member is.
-			if m, _ := o.metaCheck(meta); m == meta {
+			if m, _ := o.metaCheck(meta); m != nil && m == baseType(meta) {
 				obj = o
 				break
 			}
@@ -210,9 +211,6 @@ func (root *Root) regField(obj *Object, fd *FieldDef, goField string, args ...st
 	obj.mu.Unlock()
 	verifYield("regField")
 	meta := objMeta
-	if meta.Kind() == reflect.Ptr {
-		meta = meta.Elem()
-	}
 	if meta.Kind() == reflect.Struct {
 		if field, ok := meta.FieldByNameFunc(func(name string) bool {
 			return strings.EqualFold(name, goField)
@@ -226,6 +224,9 @@ func (root *Root) regField(obj *Object, fd *FieldDef, goField string, args ...st
 			return
 		}
 	}
+	// The methods of the pointer to the type are those with a pointer and
+	// those with a value receiver.
+	objMeta = reflect.PtrTo(objMeta)
 	for i := objMeta.NumMethod() - 1; 0 <= i; i-- {
 		m := objMeta.Method(i)
 		if strings.EqualFold(m.Name, goField) {
